@@ -2,6 +2,7 @@ import Carquet.Util
 import Driver.Ops.Bloom
 import Driver.Ops.Crc
 import Driver.Ops.Lz4
+import Driver.Ops.Par
 import Driver.Ops.Plain
 import Driver.Ops.Rle
 import Driver.Ops.Schema
@@ -18,6 +19,7 @@ def handlers : List (Line → Option Verdict) :=
   [ Driver.Ops.Bloom.handle,
     Driver.Ops.Crc.handle,
     Driver.Ops.Lz4.handle,
+    Driver.Ops.Par.handle,
     Driver.Ops.Plain.handle,
     Driver.Ops.Rle.handle,
     Driver.Ops.Schema.handle,
